@@ -1286,10 +1286,10 @@ func TestVerifC19(t *testing.T) {
 	for i := 0; i < k.N(6, 40); i++ {
 		run(vC19GenBig(k.rnd))
 	}
-	for i := 0; i < k.N(300, 3000); i++ {
+	for i := 0; i < k.N(300, 2000); i++ {
 		run(vC19GenOverlap(k.rnd))
 	}
-	n := k.N(2000, 24000)
+	n := k.N(2000, 15000)
 	for i := 0; i < n; i++ {
 		c := vC19Gen(k.rnd)
 		run(c)
